@@ -6,6 +6,8 @@
   IEEE doubles enter only through the correspondence check (`harness/props/c03.py`).
 -/
 import SkyllhModel.Model.Weights
+import SkyllhModel.Model.WeightsR7
+import SkyllhModel.Generated.C03
 import SkyllhModel.Props.C01
 import Mathlib.Data.List.GetD
 import Mathlib.Tactic
@@ -1082,3 +1084,340 @@ example : ((List.zip (List.zip [0, 0, 1] [0, 1, 1]) ([2, 4, 6] : List ℚ)).map 
 example : ratioSparse ([1, 3] : List ℚ) [0, 0, 1] [0, 1, 1] [2, 4, 6] 2
     = ratioWeighted ([1, 3] : List ℚ) (densify 2 2 [0, 0, 1] [0, 1, 1] [2, 4, 6]) 2 :=
   c03_sparse_eq_dense _ _ _ _ _ (by decide)
+
+/-! ## Round 7 — the derivative side of the weight services (`a_jk_grads`, `f_j_grads`) and the literals of
+`DatasetSignalWeightFactorsService.calculate` read from the current source (`Generated/C03.lean`) -/
+
+namespace C03
+section
+variable {K : Type} [Field K] [LinearOrder K] [IsStrictOrderedRing K]
+
+theorem total_scale (c : K) (W : List K) (Y : List (List K)) :
+    total (ajk (W.map (c * ·)) Y) = c * total (ajk W Y) := by
+  rw [ajk_scale, total_eq, total_eq, List.map_map]
+  have : (List.sum ∘ fun r : List K => r.map (c * ·)) = fun r => c * r.sum := by
+    funext r; simp [sum_map_mul_left]
+  rw [this, ← sum_map_mul_left, List.map_map]; rfl
+
+theorem sum_zipWith_quot (g h : List K → K) (t t' d : K) :
+    ∀ (a da : List (List K)), a.length = da.length →
+      (List.zipWith (fun r dr => (g dr * t - h r * t') / d) a da).sum
+        = ((da.map g).sum * t - (a.map h).sum * t') / d
+  | [], [], _ => by simp
+  | [], _ :: _, hl => by simp at hl
+  | _ :: _, [], hl => by simp at hl
+  | r :: a, dr :: da, hl => by
+      have ih := sum_zipWith_quot g h t t' d a da (by simpa using hl)
+      simp only [List.zipWith_cons_cons, List.sum_cons, List.map_cons, ih]
+      ring
+
+theorem fjGradsSpec_eq (a da : List (List K)) :
+    WeightsR7.fjGradsSpec a da
+      = List.zipWith (fun r dr => (dr.sum * total a - r.sum * total da) / (total a * total a)) a da := by
+  unfold WeightsR7.fjGradsSpec
+  simp only [sumF_eq_sum]
+
+end
+end C03
+
+/-- **Tie to the source**: with the axis literal of `a_j = np.sum(a_jk, axis=…)` found in the current source the coded
+`f_j` is the `fj` all C03 theorems are about (another literal — column sums, `AxisError` — does not prove). -/
+theorem c03_fj_axis_for_current_source {K : Type} [Field K] (a : List (List K)) :
+    WeightsR7.fjAxis Gen.C03.fjSumAxis a = some (fj a) := by
+  simp [WeightsR7.fjAxis, WeightsR7.sumAxis, Gen.C03.fjSumAxis, fj]
+
+/-- **Tie to the source**: with the axis literal of `a_j_grads = np.sum(…, axis=…)` and the exponent literal of
+`/ a**…` found in the current source, `f_j_grads` as coded is the quotient rule row by row. -/
+theorem c03_fj_grads_for_current_source {K : Type} [Field K] (a da : List (List K)) :
+    WeightsR7.fjGrads Gen.C03.fjGradSumAxis Gen.C03.fjGradExponent a da = some (WeightsR7.fjGradsSpec a da) := by
+  simp only [WeightsR7.fjGrads, WeightsR7.sumAxis, Gen.C03.fjGradSumAxis, Gen.C03.fjGradExponent, if_true,
+    WeightsR7.fjGradsSpec, List.zipWith_map, WeightsR7.fjGradEntry, WeightsR7.powN, one_mul]
+
+/-- **Partition of unity, derivative side**: the stored `f_j_grads[p]` sum to zero over the datasets (the `f_j` sum to
+one for every parameter value) — for every table and every derivative table of the same number of datasets with
+non-vanishing total (`total a = 0` is the `0/0` of `fjOpt = none`). -/
+theorem c03_fj_grads_sum_zero {K : Type} [Field K] [LinearOrder K] [IsStrictOrderedRing K]
+    (a da : List (List K)) (hl : a.length = da.length) (_ht : total a ≠ 0) :
+    (WeightsR7.fjGradsSpec a da).sum = 0 := by
+  rw [C03.fjGradsSpec_eq, C03.sum_zipWith_quot List.sum List.sum _ _ _ a da hl, ← total_eq, ← total_eq]
+  rw [mul_comm (total da) (total a), sub_self, zero_div]
+
+/-- **Scale invariance of `f_j_grads`**: a common factor `c > 0` on all source weights (`a_jk` and `a_jk_grads` both
+carry it) leaves every `f_j_grads` entry unchanged. -/
+theorem c03_fj_grads_scale_invariant {K : Type} [Field K] [LinearOrder K] [IsStrictOrderedRing K]
+    (c : K) (hc : 0 < c) (W : List K) (Y dY : List (List K)) :
+    WeightsR7.fjGradsSpec (ajk (W.map (c * ·)) Y) (ajk (W.map (c * ·)) dY)
+      = WeightsR7.fjGradsSpec (ajk W Y) (ajk W dY) := by
+  have hc0 : c ≠ 0 := ne_of_gt hc
+  rw [C03.fjGradsSpec_eq, C03.fjGradsSpec_eq, C03.total_scale, C03.total_scale, C03.ajk_scale, C03.ajk_scale,
+    List.zipWith_map]
+  congr 1
+  funext r dr
+  simp only [C03.sum_map_mul_left]
+  by_cases ht : total (ajk W Y) = 0
+  · simp [ht]
+  · field_simp
+
+/-- **Datasets permuted** (row, derivative row together): the `f_j_grads` entries are permuted in the same way. -/
+theorem c03_fj_grads_perm_datasets {K : Type} [Field K] [LinearOrder K] [IsStrictOrderedRing K]
+    {P P' : List (List K × List K)} (h : P.Perm P') :
+    (WeightsR7.fjGradsSpec (P.map Prod.fst) (P.map Prod.snd)).Perm
+      (WeightsR7.fjGradsSpec (P'.map Prod.fst) (P'.map Prod.snd)) := by
+  have t1 : total (P.map Prod.fst) = total (P'.map Prod.fst) := by
+    rw [total_eq, total_eq]; exact ((h.map _).map _).sum_eq
+  have t2 : total (P.map Prod.snd) = total (P'.map Prod.snd) := by
+    rw [total_eq, total_eq]; exact ((h.map _).map _).sum_eq
+  rw [C03.fjGradsSpec_eq, C03.fjGradsSpec_eq, t1, t2]
+  have key : ∀ (L : List (List K × List K)) (f : List K → List K → K),
+      List.zipWith f (L.map Prod.fst) (L.map Prod.snd) = L.map (fun p => f p.1 p.2) := by
+    intro L f; induction L with
+    | nil => rfl
+    | cons p L ih => simp [ih]
+  rw [key, key]
+  exact h.map _
+
+-- non-vacuity: two datasets, two sources, derivative table of the same shape, total 10 ≠ 0
+example : ([[1, 2], [3, 4]] : List (List ℚ)).length = ([[1, 0], [2, 5]] : List (List ℚ)).length ∧
+    total ([[1, 2], [3, 4]] : List (List ℚ)) ≠ 0 := by
+  refine ⟨rfl, by norm_num [total, sumF]⟩
+example : WeightsR7.fjGradsSpec ([[1, 2], [3, 4]] : List (List ℚ)) [[1, 0], [2, 5]] = [-14 / 100, 14 / 100] := by
+  norm_num [WeightsR7.fjGradsSpec, total, sumF]
+example : WeightsR7.fjGrads 1 2 ([[1, 2], [3, 4]] : List (List ℚ)) [[1, 0], [2, 5]] = some [-14 / 100, 14 / 100] := by
+  norm_num [WeightsR7.fjGrads, WeightsR7.sumAxis, WeightsR7.fjGradEntry, WeightsR7.powN, total, sumF]
+-- the axis literal matters: column sums are a different function
+example : WeightsR7.fjAxis 0 ([[1, 2], [3, 4]] : List (List ℚ)) = some [4 / 10, 6 / 10] ∧
+    fj ([[1, 2], [3, 4]] : List (List ℚ)) = [3 / 10, 7 / 10] := by
+  constructor <;> norm_num [WeightsR7.fjAxis, WeightsR7.sumAxis, WeightsR7.colSums, fj, total, sumF]
+
+namespace C03
+/-- total number of sources of the hypothesis groups -/
+def sizeSum {K : Type} (groups : List (List K × Option (List K))) : ℕ := (groups.map (fun g => g.1.length)).sum
+
+theorem sizeSum_cons {K : Type} (g : List K × Option (List K)) (rest : List (List K × Option (List K))) :
+    sizeSum (g :: rest) = g.1.length + sizeSum rest := by simp [sizeSum]
+
+theorem gradRow_inv {K : Type} [Field K] :
+    ∀ (groups : List (List K × Option (List K))) (pre : List K) (m : ℕ),
+      (∀ g ∈ groups, ∀ dy, g.2 = some dy → dy.length = g.1.length) →
+      sizeSum groups ≤ m →
+      WeightsR7.gradRow (pre ++ List.replicate m 0) groups pre.length
+        = pre ++ WeightsR7.gradRowSpec groups ++ List.replicate (m - sizeSum groups) 0
+  | [], pre, m, _, _ => by simp [WeightsR7.gradRow, WeightsR7.gradRowSpec, sizeSum]
+  | (w, none) :: rest, pre, m, hd, hm => by
+      have hm' : w.length + sizeSum rest ≤ m := by simpa [sizeSum_cons] using hm
+      have ih := gradRow_inv rest (pre ++ List.replicate w.length 0) (m - w.length)
+        (fun g hg => hd g (List.mem_cons_of_mem _ hg)) (by omega)
+      have e : pre ++ List.replicate m (0 : K) = (pre ++ List.replicate w.length 0) ++ List.replicate (m - w.length) 0 := by
+        rw [List.append_assoc, List.replicate_append_replicate]; congr 2; omega
+      simp only [WeightsR7.gradRow]
+      rw [e]
+      simp only [List.length_append, List.length_replicate] at ih
+      rw [ih]
+      have hs : sizeSum ((w, (none : Option (List K))) :: rest) = w.length + sizeSum rest := sizeSum_cons _ _
+      simp only [WeightsR7.gradRowSpec, List.flatMap_cons, List.append_assoc]
+      congr 3
+      rw [hs, Nat.sub_sub]
+  | (w, some dy) :: rest, pre, m, hd, hm => by
+      have hm' : w.length + sizeSum rest ≤ m := by simpa [sizeSum_cons] using hm
+      have hdy : dy.length = w.length := hd (w, some dy) (List.mem_cons_self) dy rfl
+      have hv : (List.zipWith (· * ·) w dy).length = w.length := by simp [hdy]
+      have ih := gradRow_inv rest (pre ++ List.zipWith (· * ·) w dy) (m - w.length)
+        (fun g hg => hd g (List.mem_cons_of_mem _ hg)) (by omega)
+      have e : setSlice (pre ++ List.replicate m (0 : K)) pre.length (List.zipWith (· * ·) w dy)
+          = (pre ++ List.zipWith (· * ·) w dy) ++ List.replicate (m - w.length) 0 := by
+        have h1 : (pre ++ List.replicate m (0 : K)).take pre.length = pre := List.take_left' rfl
+        have h2 : (pre ++ List.replicate m (0 : K)).drop (pre.length + w.length) = List.replicate (m - w.length) 0 := by
+          rw [List.drop_length_add_append]; simp
+        unfold setSlice
+        rw [hv, h1, h2]
+      simp only [WeightsR7.gradRow]
+      rw [e]
+      simp only [List.length_append, hv] at ih
+      rw [ih]
+      have hs : sizeSum ((w, some dy) :: rest) = w.length + sizeSum rest := sizeSum_cons _ _
+      simp only [WeightsR7.gradRowSpec, List.flatMap_cons, List.append_assoc]
+      congr 3
+      rw [hs, Nat.sub_sub]
+end C03
+
+/-- **Refinement of the `a_jk_grads[p]` row**: the slice-assignment loop into a row of the `np.zeros` table the
+`defaultdict` created gives, group by group, `src_weights * Yg_grads[p]` for the groups whose yield reports the key and
+zeros for the others (induction over the groups with the invariant "prefix written, the rest still zeros"); in
+particular a source of a group that does not depend on the parameter has derivative exactly 0. -/
+theorem c03_grad_row {K : Type} [Field K] (groups : List (List K × Option (List K)))
+    (hd : ∀ g ∈ groups, ∀ dy, g.2 = some dy → dy.length = g.1.length) :
+    WeightsR7.gradRow (List.replicate (C03.sizeSum groups) 0) groups = WeightsR7.gradRowSpec groups := by
+  have h := C03.gradRow_inv groups [] (C03.sizeSum groups) hd (le_refl _)
+  simpa using h
+
+/-- **The `a_jk_grads` dictionary entry**: absent iff no (dataset, group) reports the key; otherwise one row per dataset
+as specified by `gradRowSpec`. -/
+theorem c03_grad_table {K : Type} [Field K] (n : ℕ) (rows : List (List (List K × Option (List K))))
+    (hs : ∀ gs ∈ rows, C03.sizeSum gs = n)
+    (hd : ∀ gs ∈ rows, ∀ g ∈ gs, ∀ dy, g.2 = some dy → dy.length = g.1.length) :
+    WeightsR7.gradTable n rows
+      = if WeightsR7.hasKey rows then some (rows.map WeightsR7.gradRowSpec) else none := by
+  unfold WeightsR7.gradTable
+  split
+  · congr 1
+    apply List.map_congr_left
+    intro gs hgs
+    rw [← hs gs hgs]
+    exact c03_grad_row gs (hd gs hgs)
+  · rfl
+
+example : WeightsR7.gradRow (List.replicate 3 (0 : ℚ)) [([1, 2], none), ([5], some [6])] = [0, 0, 30] ∧
+    WeightsR7.gradRowSpec ([([1, 2], none), ([5], some [6])] : List (List ℚ × Option (List ℚ))) = [0, 0, 30] := by
+  constructor <;> norm_num [WeightsR7.gradRow, WeightsR7.gradRowSpec, setSlice, List.zipWith, List.replicate]
+
+/-- **Sources permuted across hypothesis-group borders** (was "tested only"): two groupings `sizes`, `sizes'` of the
+same sources — the (weight, yield) pairs of every dataset row are a permutation of each other, which covers one common
+permutation of `W` and of the columns of `Y`, also one that moves sources from one group into another — give, through
+the slice-assignment loop of `calculate` as coded, the same dataset weight factors. -/
+theorem c03_perm_sources_across_groups {K : Type} [Field K] [LinearOrder K] [IsStrictOrderedRing K]
+    (sizes sizes' : List ℕ) (W W' : List K) (Y Y' : List (List K)) (init init' : List K)
+    (hW : W.length = sizes.sum) (hW' : W'.length = sizes'.sum)
+    (hY : ∀ row ∈ Y, row.length = sizes.sum) (hY' : ∀ row ∈ Y', row.length = sizes'.sum)
+    (hi : init.length = sizes.sum) (hi' : init'.length = sizes'.sum)
+    (h : List.Forall₂ (fun row row' => (List.zip W row).Perm (List.zip W' row')) Y Y') :
+    fj (Y.map (fun row => calcRow init (List.zip (splitSizes sizes W) (splitSizes sizes row))))
+      = fj (Y'.map (fun row => calcRow init' (List.zip (splitSizes sizes' W') (splitSizes sizes' row)))) := by
+  rw [c03_calc_rows_eq_ajk sizes W Y init hW hY hi, c03_calc_rows_eq_ajk sizes' W' Y' init' hW' hY' hi']
+  apply c03_perm_sources_fj
+  unfold ajk
+  rw [List.forall₂_map_left_iff, List.forall₂_map_right_iff]
+  refine h.imp ?_
+  intro row row' hp
+  have key : ∀ (A B : List K), List.zipWith (· * ·) A B = (List.zip A B).map (fun p => p.1 * p.2) := by
+    intro A B
+    simp [List.zip, List.map_zipWith]
+  rw [key, key]
+  exact hp.map _
+
+-- non-vacuity: 3 sources in groups [2,1] re-ordered across the border into groups [1,2]
+example : List.Forall₂ (fun row row' => (List.zip ([1, 2, 3] : List ℚ) row).Perm (List.zip ([3, 1, 2] : List ℚ) row'))
+    [[4, 5, 6], [7, 8, 9]] [[6, 4, 5], [9, 7, 8]] := by
+  refine .cons ?_ (.cons ?_ .nil) <;> decide
+
+/-- **Tie to the source**: with the comparison found in the guard of `SourceWeightedPDFRatio.get_ratio` in the current
+source, the stacked ratio as coded is the `ratioWeighted` the weighted-mean / zero-yield theorems are about (the `A > 0`
+of the first repair or an unguarded division do not prove). -/
+theorem c03_ratio_guard_for_current_source {K : Type} [Field K] [LinearOrder K]
+    (ak : List K) (Rk : List (List K)) (n : ℕ) :
+    WeightsR7.ratioWeightedG Gen.C03.ratioGuard ak Rk n = ratioWeighted ak Rk n := by
+  simp [WeightsR7.ratioWeightedG, Gen.C03.ratioGuard, ratioWeighted]
+
+/-! ### Life cycle of the services: exceptions as coded -/
+
+/-- a history is *orderly* from a state when the factor service is calculated only once the weight service has been,
+read only once it has been calculated, and `change_shg_mgr` always gets the manager of the yield service -/
+def C03.Orderly {K : Type} : Bool → Bool → List (WeightsR7.LifeOp K) → Prop
+  | _, _, [] => True
+  | _, hf, .calcA _ :: rest => C03.Orderly true hf rest
+  | ha, _, .calcF :: rest => ha = true ∧ C03.Orderly ha true rest
+  | ha, hf, .getF :: rest => hf = true ∧ C03.Orderly ha hf rest
+  | ha, hf, .changeShgMgr same :: rest => same = true ∧ C03.Orderly ha hf rest
+  | ha, hf, .setW _ :: rest => C03.Orderly ha hf rest
+  | ha, hf, .getA :: rest => C03.Orderly ha hf rest
+
+/-- **No exception under the stated guard**: an orderly history never raises — from any state whose `_a_jk` / `_f_j`
+are present as far as the history assumes, in particular from the freshly constructed objects. -/
+theorem c03_life_orderly_no_error {K : Type} [Field K] (ops : List (WeightsR7.LifeOp K)) :
+    ∀ (st : WeightsR7.Life K), C03.Orderly st.a.isSome st.f.isSome ops →
+      ∀ r ∈ WeightsR7.lifeRun st ops, ∃ o, r = .ok o := by
+  induction ops with
+  | nil => intro st _ r hr; simp [WeightsR7.lifeRun] at hr
+  | cons op rest ih =>
+    intro st ho r hr
+    cases op with
+    | setW W' =>
+      simp only [WeightsR7.lifeRun, WeightsR7.lifeStep, List.mem_cons] at hr
+      rcases hr with rfl | hr
+      · exact ⟨_, rfl⟩
+      · exact ih _ (by simpa [C03.Orderly] using ho) r hr
+    | changeShgMgr same =>
+      obtain ⟨hsame, ho'⟩ := (by simpa [C03.Orderly] using ho : same = true ∧ _)
+      subst hsame
+      simp only [WeightsR7.lifeRun, WeightsR7.lifeStep, if_true, List.mem_cons] at hr
+      rcases hr with rfl | hr
+      · exact ⟨_, rfl⟩
+      · exact ih _ (by simpa using ho') r hr
+    | calcA Y =>
+      simp only [WeightsR7.lifeRun, WeightsR7.lifeStep, List.mem_cons] at hr
+      rcases hr with rfl | hr
+      · exact ⟨_, rfl⟩
+      · exact ih _ (by simpa [C03.Orderly] using ho) r hr
+    | calcF =>
+      obtain ⟨ha, ho⟩ := (by simpa [C03.Orderly] using ho : st.a.isSome = true ∧ _)
+      obtain ⟨a, hsa⟩ := Option.isSome_iff_exists.mp ha
+      simp only [WeightsR7.lifeRun, WeightsR7.lifeStep, hsa, List.mem_cons] at hr
+      rcases hr with rfl | hr
+      · exact ⟨_, rfl⟩
+      · exact ih _ (by simpa [hsa] using ho) r hr
+    | getA =>
+      cases hsa : st.a with
+      | none =>
+        simp only [WeightsR7.lifeRun, WeightsR7.lifeStep, hsa, List.mem_cons] at hr
+        rcases hr with rfl | hr
+        · exact ⟨_, rfl⟩
+        · exact ih _ (by simpa [C03.Orderly] using ho) r hr
+      | some a =>
+        simp only [WeightsR7.lifeRun, WeightsR7.lifeStep, hsa, List.mem_cons] at hr
+        rcases hr with rfl | hr
+        · exact ⟨_, rfl⟩
+        · exact ih _ (by simpa [C03.Orderly] using ho) r hr
+    | getF =>
+      obtain ⟨hf, ho⟩ := (by simpa [C03.Orderly] using ho : st.f.isSome = true ∧ _)
+      obtain ⟨f, hsf⟩ := Option.isSome_iff_exists.mp hf
+      simp only [WeightsR7.lifeRun, WeightsR7.lifeStep, hsf, List.mem_cons] at hr
+      rcases hr with rfl | hr
+      · exact ⟨_, rfl⟩
+      · exact ih _ (by simpa using ho) r hr
+
+/-- **A call that raises leaves the objects as they were**: the rest of the history behaves as if the call had never
+been made (for each of the three exceptions of the code). -/
+theorem c03_life_error_keeps_state {K : Type} [Field K] (st : WeightsR7.Life K) (op : WeightsR7.LifeOp K)
+    (e : WeightsR7.Err) (h : WeightsR7.lifeStep st op = .error e) (rest : List (WeightsR7.LifeOp K)) :
+    WeightsR7.lifeRun st (op :: rest) = .error e :: WeightsR7.lifeRun st rest := by
+  simp [WeightsR7.lifeRun, h]
+
+/-- **What `get_weights()` of the factor service returns in a history**: after `calculate` of the weight service at
+yields `Y` and `calculate()` of the factor service, it is `fj (ajk Wc Y)` with the weights cached at the last successful
+`change_shg_mgr` — the `f_j` of `c03_fj_sum_one`, `c03_fj_nonneg`, … -/
+theorem c03_life_getF {K : Type} [Field K] (st : WeightsR7.Life K) (Y : List (List K)) (rest : List (WeightsR7.LifeOp K)) :
+    WeightsR7.lifeRun st (.calcA Y :: .calcF :: .getF :: rest)
+      = .ok .unit :: .ok .unit :: .ok (.vec (fj (ajk st.Wc Y)))
+          :: WeightsR7.lifeRun { st with a := some (ajk st.Wc Y), f := some (fj (ajk st.Wc Y)) } rest := by
+  simp [WeightsR7.lifeRun, WeightsR7.lifeStep]
+
+-- non-vacuity: an orderly history from the constructed objects; and the three exceptions are reachable
+example : C03.Orderly (WeightsR7.lifeInit ([1, 2] : List ℚ)).a.isSome (WeightsR7.lifeInit ([1, 2] : List ℚ)).f.isSome
+    [.getA, .calcA [[1, 1]], .calcF, .getF, .setW [3, 4], .changeShgMgr true, .calcA [[1, 1]], .getA] := by
+  simp [C03.Orderly]
+example : WeightsR7.lifeStep (WeightsR7.lifeInit ([1, 2] : List ℚ)) .calcF = .error .axisError ∧
+    WeightsR7.lifeStep (WeightsR7.lifeInit ([1, 2] : List ℚ)) .getF = .error .attributeError ∧
+    WeightsR7.lifeStep (WeightsR7.lifeInit ([1, 2] : List ℚ)) (.changeShgMgr false) = .error .valueError := by
+  refine ⟨rfl, rfl, rfl⟩
+
+/-- **No exception under the stated guard** (`calculate` with numpy's shape checks): when every detector signal yield
+returns one value per source of its group, the slice-assignment loop never raises and is the `calcRow` of
+`c03_calc_row_full` / `c03_calc_row_eq_ajk`.  (A length-1 array is broadcast silently — second example — everything else
+raises.) -/
+theorem c03_calc_row_checked_ok {K : Type} [Field K] (groups : List (List K × List K))
+    (h : ∀ g ∈ groups, g.2.length = g.1.length) (init : List K) (s : ℕ) :
+    WeightsR7.calcRowChecked init groups s = some (calcRow init groups s) := by
+  induction groups generalizing init s with
+  | nil => simp [WeightsR7.calcRowChecked, calcRow]
+  | cons g gs ih =>
+    obtain ⟨w, y⟩ := g
+    have hg : y.length = w.length := h (w, y) List.mem_cons_self
+    simp only [WeightsR7.calcRowChecked, WeightsR7.mulBroadcast, hg, if_true, calcRow]
+    exact ih (fun g hg' => h g (List.mem_cons_of_mem _ hg')) _ _
+
+example : ∀ g ∈ ([([1, 2], [5, 6]), ([3], [4])] : List (List ℚ × List ℚ)), g.2.length = g.1.length := by decide
+example : WeightsR7.calcRowChecked ([0, 0, 0] : List ℚ) [([1, 2], [5]), ([3], [4])] = some [5, 10, 12] := by
+  norm_num [WeightsR7.calcRowChecked, WeightsR7.mulBroadcast, setSlice]
+example : WeightsR7.calcRowChecked ([0, 0, 0] : List ℚ) [([1, 2], [5, 6, 7]), ([3], [4])] = none := by
+  simp [WeightsR7.calcRowChecked, WeightsR7.mulBroadcast]
+example : WeightsR7.calcRowChecked ([0, 0, 0] : List ℚ) [([1, 2], [5, 6]), ([3], [4, 4])] = none := by
+  simp [WeightsR7.calcRowChecked, WeightsR7.mulBroadcast]
